@@ -54,6 +54,14 @@ class C14(PropBase):
                     out.append(Case('path', [['s', a], '', 'pos'], 'frame-op', {}))
                 else:
                     out.append(Case('fields_mutate', [['s', a.split(':')[-1]], 'project', 'zzz'], 'frame-op', {}))
+            if rng.random() < 0.5:
+                body = a.split(':')[-1]
+                out.append(Case('sid_multi', [a, rng.choice(['task=render', 'state=p', 'project=x', 'foo=bar']),
+                                              rng.choice([[], [['project', 'hamlet']]])], 'frame-op', {}))
+            if rng.random() < 0.5:
+                t = v.any_type(rng)
+                f = v.fields(t, rng)
+                out.append(Case('fields_arg_mutate', [[list(kv) for kv in f], rng.choice(v.all_keys()), rng.choice(['zzz', 'render', '*'])], 'frame-op', {}))
             out.append(Case('obs', [['s', a]], 'frame', {'key': a, 'step': 2}))
         return out
     def oracle(self, case, impl, ctx):
@@ -76,6 +84,9 @@ class C14(PropBase):
                 return '.fields returned the same object twice (not a private copy)'
             if x_after != y_new:
                 return 'a new Sid of the same string differs from the old one after mutation: %r vs %r' % (x_after, y_new)
+        if case.op in ('sid_multi', 'fields_arg_mutate') and impl[0] == 'ok':
+            if impl[1][1] != '1':
+                return '%s changed an existing Sid (%r)' % (case.op, case.args)
         if case.op == 'sorted' and impl[0] == 'ok':
             if impl[1] != sorted(impl[1]):
                 return 'sorted(sids) is not ordered by string'
